@@ -26,9 +26,12 @@ def sh(cmd, cwd=None, env=None, timeout=3600):
     return p.returncode, p.stdout
 
 
+SEEDDIR = ["seeded"]
+
+
 def one(name, tier, extra_ids):
     pid = name.split("-")[0]
-    patch = os.path.join(ROOT, "seeded", name, "patch.diff")
+    patch = os.path.join(ROOT, SEEDDIR[0], name, "patch.diff")
     wt = tempfile.mkdtemp(prefix="mut-%s-" % name, dir="/tmp")
     os.rmdir(wt)
     rc, out = sh(["git", "-C", "/repo", "worktree", "add", "--detach", wt, "HEAD"])
@@ -71,10 +74,12 @@ def main():
             jobs = int(args.pop(0))
         elif a == "--also":
             extra = args.pop(0).split(",")
+        elif a == "--dir":
+            SEEDDIR[0] = args.pop(0)
         else:
             names.append(a)
     if not names:
-        names = sorted(os.listdir(os.path.join(ROOT, "seeded")))
+        names = sorted(os.listdir(os.path.join(ROOT, SEEDDIR[0])))
     results = {}
     with concurrent.futures.ThreadPoolExecutor(jobs) as ex:
         for name, res in ex.map(lambda n: one(n, tier, extra), names):
